@@ -19,9 +19,13 @@ EXIT_CODES = [10, 93]
 def gen_cache(r, data):
     strat = r.choice(["lru", "plru"])
     ways = r.choice([1, 2, 4]) if strat == "plru" else r.choice([1, 1, 2, 3, 4])
+    ib, bb = r.randint(0, 2), r.choice([0, 0, 1, 1, 2, 2, 3])
+    if r.random() < 0.08:  # legal but unusual corners: 16-word blocks, 8 ways, 16 sets, fully associative and wide
+        ib, bb = r.choice([(0, 4), (3, 3), (4, 0), (0, 3), (4, 4), (1, 4)])
+        ways = r.choice([1, 8, 8, 4]) if strat == "plru" else r.choice([1, 5, 7, 8])
     return {
-        "ib": r.randint(0, 2),
-        "bb": r.choice([0, 0, 1, 1, 2, 2, 3]),
+        "ib": ib,
+        "bb": bb,
         "ways": ways,
         "kind": r.choice(["wb", "wt"]) if data else "wt",
         "strat": strat,
@@ -32,6 +36,8 @@ def gen_cache(r, data):
 class _G:
     def __init__(self, seed, faults=True, force_shape=None, fault_rate=0.25, long=False):
         self.long = long
+        self.seed = seed
+        self.marathon = False
         self.rp = R.stream(seed, "personality")
         self.r = R.stream(seed, "program")
         self.ri = R.stream(seed, "init")
@@ -194,13 +200,19 @@ class _G:
         if self.shape == "loops":
             prog = []
             nloops = r.randint(1, 2) if not self.long else r.randint(2, 5)
-            for _ in range(nloops):
+            # marathon loop (a fifth of the long programs): one short loop runs 130-520 times, so that instruction,
+            # cycle, access and fill counts pass 256 / 1000 / 1024 / 2048 within one run
+            self.marathon = self.long and R.stream(self.seed, "marathon").random() < 0.2
+            for li in range(nloops):
                 pre = r.randint(0, 3)
                 for _ in range(pre):
                     prog.append(self.one(len(prog), len(prog) + 4, len(prog) + 1, len(prog) + 1))
                 prog.append(["ADDI", self.K, 0, r.randint(1, 4) if not self.long else r.randint(2, 12)])
                 start = len(prog)
                 blen = r.choice([1, 2, 3, 4, 5, 6, 8, 9])
+                if self.marathon and li == 0:
+                    prog[-1][3] = R.stream(self.seed, "marathon-n").choice([130, 260, 300, 520])
+                    blen = min(blen, 4)
                 end = start + blen  # index of the counter decrement
                 for j in range(blen):
                     i = len(prog)
@@ -458,7 +470,7 @@ def generate(seed, faults=True, force_shape=None, fault_rate=0.25, long=False):
     prog = g.prog[: (120 if long else 40)]
     cfg = g.config()
     if long:
-        cfg["cap"] = 2000
+        cfg["cap"] = 8000 if g.marathon else 2000
         # motifs are spliced more often into long programs (never into the independent family)
         for _ in range(g.r.randint(1, 4) if g.shape != "independent" else 0):
             which = g.r.choice(_G.MOTIFS)
